@@ -4,6 +4,10 @@
 //! (DESIGN.md 4/C15 "Seams owned by the simulator").
 
 use rustemo_compiler::{BuilderType, GeneratorTableType, LexerType, ParserAlgo, Settings};
+
+#[path = "../rcsim/src/prng.rs"]
+mod prng;
+use prng::Rng;
 use serde_json::Value;
 use std::fmt::Write as _;
 use std::path::{Path, PathBuf};
@@ -128,7 +132,212 @@ fn main() {
             writeln!(registry, "        {mac},").unwrap();
         }
     }
+    // ---- seeded generated grammars with sentences derived by construction ----
+    let mut gen_entries: Vec<Value> = vec![];
+    let mut gen_skipped = 0usize;
+    for n in 0..GEN_GRAMMARS {
+        let mut rng = Rng::new(prng::sub_seed(0x5eed, 77, n as u64));
+        let want_lr = n % 3 == 2;
+        let g = gen_grammar(&mut rng, want_lr);
+        let id = format!("gen_{n:02}");
+        let stem = "gg";
+        let modname = format!("{id}_fn");
+        let dir = out_dir.join(&modname);
+        let _ = std::fs::remove_dir_all(&dir);
+        std::fs::create_dir_all(&dir).unwrap();
+        let gpath = dir.join(format!("{stem}.rustemo"));
+        std::fs::write(&gpath, &g.text).unwrap();
+        let mut s = Settings::new()
+            .root_dir(dir.clone())
+            .out_dir_root(dir.clone())
+            .out_dir_actions_root(dir.clone())
+            .force(true)
+            .builder_type(BuilderType::Generic)
+            .generator_table_type(GeneratorTableType::Functions);
+        if !want_lr {
+            s = s.parser_algo(ParserAlgo::GLR).lexical_disamb_most_specific(!g.flags_off).lexical_disamb_longest_match(!g.flags_off);
+        } else {
+            // no implicit conflict resolution: a conflict means "not in the corpus"
+            s = s.prefer_shifts(false).prefer_shifts_over_empty(false);
+        }
+        // the compiler prints conflicts for LR attempts; a grammar that is not
+        // LR is simply not part of the corpus
+        if s.process_grammar(&gpath).is_err() {
+            gen_skipped += 1;
+            continue;
+        }
+        let gen_path = dir.join(format!("{stem}.rs"));
+        let gen = std::fs::read_to_string(&gen_path).expect("generated parser");
+        let file = syn::parse_file(&gen).expect("generated parser parses");
+        let mut kinds: Vec<String> = vec![];
+        let mut def_name = String::new();
+        for item in &file.items {
+            match item {
+                syn::Item::Enum(en) if en.ident == "TokenKind" => kinds = en.variants.iter().map(|v| v.ident.to_string()).collect(),
+                syn::Item::Static(st) if st.ident == "PARSER_DEFINITION" => {
+                    if let syn::Type::Path(p) = &*st.ty {
+                        def_name = p.path.segments.last().unwrap().ident.to_string();
+                    }
+                }
+                _ => {}
+            }
+        }
+        writeln!(code, "pub mod {modname} {{\n    #![allow(warnings, clippy::all)]\n    include!({:?});", gen_path.display().to_string()).unwrap();
+        writeln!(code, "    pub const ALL_TOKEN_KINDS: &[TokenKind] = &[{}];", kinds.iter().map(|k| format!("TokenKind::{k}")).collect::<Vec<_>>().join(", ")).unwrap();
+        writeln!(code, "    pub const TOKEN_KIND_NAMES: &[&str] = &[{}];", kinds.iter().map(|k| format!("{k:?}")).collect::<Vec<_>>().join(", ")).unwrap();
+        writeln!(code, "    pub type Def = {def_name};\n}}").unwrap();
+        let mac = if want_lr {
+            format!("lr_case!({modname}, {id:?}, \"fn\", false, false, true)")
+        } else {
+            format!("glr_case!({modname}, {id:?}, \"fn\", false, false, true, false)")
+        };
+        writeln!(registry, "        {mac},").unwrap();
+        gen_entries.push(serde_json::json!({
+            "id": id, "stem": stem, "algo": if want_lr { "lr" } else { "glr" },
+            "sentences": g.sentences.iter().map(|t| serde_json::json!({"text": t, "valid": true})).collect::<Vec<_>>(),
+            "c12": "TGW",
+            "w_eligible": true, "w_reason": "generated: no terminal can match whitespace",
+            "grammar": g.text,
+        }));
+    }
+    std::fs::write(out_dir.join("gen_manifest.json"), serde_json::to_string_pretty(&serde_json::json!({"entries": gen_entries, "skipped_not_compilable": gen_skipped})).unwrap()).unwrap();
     writeln!(code, "pub fn registry() -> Vec<Box<dyn crate::case::ParserCase>> {{\n    vec![\n{registry}    ]\n}}").unwrap();
     std::fs::write(out_dir.join("parsers.rs"), code).unwrap();
     let _ = Path::new("");
+}
+
+// ---------------------------------------------------------------------------
+// Seeded grammar generator for psim (DESIGN.md 10.14): small grammars whose
+// string terminals overlap ("a", "ab", "abc" ...), so that one text has
+// several tokenisations with different token counts, plus sentences obtained
+// by random derivation -- sentences by construction, no membership oracle
+// needed.  No unit or epsilon cycles (every recursive alternative contains a
+// terminal), so forests are finite.
+// ---------------------------------------------------------------------------
+const GEN_GRAMMARS: usize = 36;
+
+struct GenG {
+    text: String,
+    sentences: Vec<String>,
+    /// most-specific and longest-match off: every tokenisation is explored, so
+    /// sentences may be written without separating spaces
+    flags_off: bool,
+}
+
+#[derive(Clone)]
+enum Sym {
+    T(usize),
+    N(usize),
+}
+
+fn gen_grammar(rng: &mut Rng, lr: bool) -> GenG {
+    // terminals: (name, recognizer text, example)
+    let overlapping = [("Ta", "a"), ("Tab", "ab"), ("Tabc", "abc"), ("Tb", "b"), ("Tbc", "bc"), ("Tc", "c"), ("Tca", "ca")];
+    let plain = [("Plus", "+"), ("Semi", ";"), ("LP", "("), ("RP", ")"), ("Kx", "x"), ("Ky", "y"), ("Kz", "z"), ("Kw", "w")];
+    let regexes = [("Num", "/\\d+/", "42"), ("Word", "/[m-p]+/", "mop"), ("Hash", "/#[0-9]/", "#7")];
+    let mut terms: Vec<(String, String, String, bool)> = vec![]; // name, recognizer, example, is_regex
+    let flags_off = !lr && rng.chance(2, 3);
+    let pool: Vec<(&str, &str)> = if lr { plain.to_vec() } else { overlapping.iter().chain(plain.iter()).copied().collect() };
+    let mut idx: Vec<usize> = (0..pool.len()).collect();
+    rng.shuffle(&mut idx);
+    let nt = rng.range(3, if lr { 6 } else { 7 });
+    for i in idx.into_iter().take(nt) {
+        terms.push((pool[i].0.to_string(), format!("'{}'", pool[i].1), pool[i].1.to_string(), false));
+    }
+    let nre = rng.range(0, 2);
+    let mut ridx: Vec<usize> = (0..regexes.len()).collect();
+    rng.shuffle(&mut ridx);
+    for i in ridx.into_iter().take(nre) {
+        terms.push((regexes[i].0.to_string(), regexes[i].1.to_string(), regexes[i].2.to_string(), true));
+    }
+    let n_nt = rng.range(2, 4);
+    // alternatives per non-terminal
+    let mut prods: Vec<Vec<Vec<Sym>>> = vec![];
+    for a in 0..n_nt {
+        let mut alts: Vec<Vec<Sym>> = vec![];
+        let n_alts = rng.range(1, 3);
+        for k in 0..n_alts {
+            // LR grammars must be deterministic *without any disambiguation
+            // taking effect* (the scope of C01/C12): epsilon-free, every
+            // alternative of a non-terminal starts with a different terminal,
+            // no left recursion (s-grammars are SLR(1)).
+            let len = if !lr && k > 0 && rng.chance(1, 6) { 0 } else { rng.range(1, 3) };
+            let mut rhs: Vec<Sym> = vec![];
+            for _ in 0..len {
+                if a + 1 < n_nt && rng.chance(2, 5) {
+                    rhs.push(Sym::N(rng.range(a + 1, n_nt - 1)));
+                } else {
+                    rhs.push(Sym::T(rng.usize(terms.len())));
+                }
+            }
+            if lr && !rhs.is_empty() {
+                // keyword-led alternatives keep the grammar deterministic
+                rhs.insert(0, Sym::T(k % terms.len()));
+            }
+            alts.push(rhs);
+        }
+        // direct recursion with a terminal in the recursive alternative
+        if rng.chance(1, 2) {
+            if lr {
+                // right recursion led by a terminal no other alternative starts with
+                let k = alts.len();
+                if k < terms.len() {
+                    alts.push(vec![Sym::T(k), Sym::T(rng.usize(terms.len())), Sym::N(a)]);
+                }
+            } else {
+                let t = Sym::T(rng.usize(terms.len()));
+                let rec = if rng.chance(1, 2) { vec![Sym::N(a), t, Sym::T(rng.usize(terms.len()))] } else { vec![t, Sym::N(a)] };
+                alts.push(rec);
+            }
+        }
+        // at least one non-empty alternative first
+        if alts.iter().all(|r| r.is_empty()) {
+            alts.insert(0, vec![Sym::T(rng.usize(terms.len()))]);
+        }
+        prods.push(alts);
+    }
+    let mut text = String::new();
+    for (a, alts) in prods.iter().enumerate() {
+        let rhs: Vec<String> = alts
+            .iter()
+            .map(|r| if r.is_empty() { "EMPTY".to_string() } else { r.iter().map(|s| match s { Sym::T(t) => terms[*t].0.clone(), Sym::N(n) => format!("N{n}") }).collect::<Vec<_>>().join(" ") })
+            .collect();
+        text.push_str(&format!("N{a}: {};\n", rhs.join(" | ")));
+    }
+    text.push_str("terminals\n");
+    for t in &terms {
+        text.push_str(&format!("{}: {};\n", t.0, t.1));
+    }
+    // sentences by random derivation
+    fn derive(rng: &mut Rng, prods: &[Vec<Vec<Sym>>], terms: &[(String, String, String, bool)], n: usize, depth: usize, out: &mut Vec<String>) {
+        let alts = &prods[n];
+        // Non-recursive alternatives only reference higher-numbered
+        // non-terminals, so taking one of them beyond the depth limit
+        // guarantees termination; the result is a derivation either way.
+        let non_recursive: Vec<&Vec<Sym>> = alts.iter().filter(|r| !r.iter().any(|s| matches!(s, Sym::N(m) if *m == n))).collect();
+        let choice: Vec<Sym> = if depth > 3 { non_recursive[rng.usize(non_recursive.len())].clone() } else { alts[rng.usize(alts.len())].clone() };
+        for s in choice {
+            match s {
+                Sym::T(t) => out.push(terms[t].2.clone()),
+                Sym::N(m) => derive(rng, prods, terms, m, depth + 1, out),
+            }
+        }
+    }
+    let mut sentences: Vec<String> = vec![];
+    for k in 0..8 {
+        let mut toks: Vec<String> = vec![];
+        derive(rng, &prods, &terms, 0, 0, &mut toks);
+        if toks.len() > 40 {
+            continue;
+        }
+        let any_regex = terms.iter().any(|t| t.3);
+        // without spaces only when every tokenisation is explored and no regex
+        // token can swallow its neighbours
+        let glued = flags_off && !any_regex && k % 2 == 1;
+        let s = if glued { toks.join("") } else { toks.join(" ") };
+        if !sentences.contains(&s) {
+            sentences.push(s);
+        }
+    }
+    GenG { text, sentences, flags_off }
 }
